@@ -1,6 +1,6 @@
 (* C17 — MUSIC / EV resolve exact sinusoids and expose the data-matrix spectrum.
    Nothing but statements; each is closed by [exact] of a lemma proved in Proofs/Eigen{FB,Axis,Theory}.v.
-   The model (Model/Eigen.v) is eigen()/_get_signal_space/pmusic/pev as the code is now (after D4 and D21).
+   The model (Model/Eigen.v) is eigen()/_get_signal_space/pmusic/pev as the code is now (after D4, D21 and D22).
    numpy.linalg.svd is not modelled: (S, Vh) are universally quantified and constrained by [svd_spec] where needed.
 
    PROVED (abstract ordered *-field; every N, P, K, NFFT of both parities, real and complex data):
@@ -19,7 +19,8 @@
      singular_values_rank          noiseless unit-modulus data: S_I = 0 for every I >= K — at most K singular values are non-zero
      eigen_resolves                noiseless on-grid exponentials, NSIG = K, svd_spec: eigen returns S, S_I = 0 for I >= K, and each entry whose
                                    centred bin is a true bin is 1/0 — the MUSIC and the EV denominators vanish at the true frequencies
-     pseudo_nonneg, pseudo_positive  denominators are >= 0 (EV: when the noise singular values are > 0); they are 0 exactly when every
+     pseudo_nonneg, pseudo_positive  denominators are >= 0 (EV with the floored weights 1/max(S_I, eps*S_0): needs only eps > 0, S_0 > 0 and
+                                   S_I >= 0 — the noise singular values may be exactly 0, D22); they are 0 exactly when every
                                    noise vector is orthogonal to e(f); elsewhere the pseudo-spectrum is > 0
      music_at_least_1_over_P       MUSIC with a unitary V: denominator <= P
      signal_space_choice           complete inversion of the decision logic: what a successful call has chosen
@@ -29,8 +30,8 @@
      threshold_keeps_noise         threshold >= 1 on non-negative singular values: 1 <= NSIG <= P-1
      music_axis_eigen / _complex / _real   entry j of eigen() / pmusic,pev (complex) / pmusic,pev (real) is the pseudo-spectrum at
                                    the bin frequencies() reports for j (centred / two-sided / one-sided), lengths NFFT / NFFT / NFFT/2+1
-   REFUTED on a corner (Example ev_zero_singular_value_not_positive, reproduced on the implementation by the check):
-     with an exactly rank-deficient data matrix the EV weights 1/S_I are 1/0: the EV "pseudo-spectrum is positive" clause fails.
+   D22 (EV divided by exactly-zero singular values) is repaired in the code (b2427b9) and in the model: Examples ev_floored_on_zero_singular_value,
+     ev_floor_positive show the floored weight on that corner.
    NOT PROVED: that the binary64 values at the true bins dominate ("K largest local maxima within one bin"), that the first K
      singular values are non-zero / that the trailing ones are numerically negligible (in exact arithmetic they are 0: proved),
      anything about numpy's SVD itself,
@@ -103,33 +104,33 @@ Theorem singular_values_rank (x : list F) (P K : nat) (A z : nat -> F) (S : list
 Proof. exact (noiseless_rank_thm x P K A z S Vh). Qed.
 
 Theorem eigen_resolves (tw : Z -> F) (NFFT : nat) (T : Twiddle NFFT tw) (Hpos : (0 < NFFT)%nat)
-        meth crit amin (x : list F) (P K : nat) (A z : nat -> F) (bin : nat -> Z) (S : list F) (Vh : list (list F)) psd ev :
+        meth eps crit amin (x : list F) (P K : nat) (A z : nat -> F) (bin : nat -> Z) (S : list F) (Vh : list (list F)) psd ev :
   (forall n, (n < length x)%nat -> nthF x n = expsig K A z n) ->
   (forall i, (i < K)%nat -> z i = tw (- bin i)%Z) ->
   (K <= np_of (length x) P)%nat -> distinct K z -> (forall i, (i < K)%nat -> A i <> 0) ->
   svd_spec (fb_matrix x P) (2 * np_of (length x) P) P S Vh ->
-  eigen meth (Some (NInt (Z.of_nat K))) None crit amin tw NFFT x P S Vh = inr (psd, ev) ->
+  eigen meth eps (Some (NInt (Z.of_nat K))) None crit amin tw NFFT x P S Vh = inr (psd, ev) ->
   ev = S /\ length psd = NFFT /\ (K < P)%nat /\ (forall I, (K <= I)%nat -> (I < P)%nat -> nthF S I = 0) /\
   forall i j (c : Z), (i < K)%nat -> (j < NFFT)%nat -> centerdc_bin NFFT j = (bin i + c * Z.of_nat NFFT)%Z ->
-    nthF psd j = 1 / dform meth tw P S Vh K (centerdc_bin NFFT j) /\ dform meth tw P S Vh K (centerdc_bin NFFT j) = 0.
-Proof. exact (eigen_resolves_rank_thm tw NFFT Hpos meth crit amin x P K A z bin S Vh psd ev). Qed.
+    nthF psd j = 1 / dform meth eps tw P S Vh K (centerdc_bin NFFT j) /\ dform meth eps tw P S Vh K (centerdc_bin NFFT j) = 0.
+Proof. exact (eigen_resolves_rank_thm tw NFFT Hpos meth eps crit amin x P K A z bin S Vh psd ev). Qed.
 
-Theorem pseudo_nonneg (tw : Z -> F) meth (P : nat) (S : list F) (Vh : list (list F)) (ns : nat) (b : Z) :
-  (meth = MEv -> forall I, (ns <= I)%nat -> (I < P)%nat -> pos (nthF S I)) ->
-  nonneg (dform meth tw P S Vh ns b)
-  /\ (dform meth tw P S Vh ns b = 0 <-> forall I, (ns <= I)%nat -> (I < P)%nat -> dftN tw P (rsv Vh I) b = 0).
-Proof. exact (fun Hw => Logic.conj (dform_nonneg tw meth P S Vh ns Hw b) (dform_zero_iff tw meth P S Vh ns Hw b)). Qed.
+Theorem pseudo_nonneg (tw : Z -> F) meth eps (P : nat) (S : list F) (Vh : list (list F)) (ns : nat) (b : Z) :
+  (meth = MEv -> pos eps /\ pos (nthF S 0) /\ forall I, (ns <= I)%nat -> (I < P)%nat -> nonneg (nthF S I)) ->
+  nonneg (dform meth eps tw P S Vh ns b)
+  /\ (dform meth eps tw P S Vh ns b = 0 <-> forall I, (ns <= I)%nat -> (I < P)%nat -> dftN tw P (rsv Vh I) b = 0).
+Proof. exact (fun Hw => Logic.conj (dform_nonneg tw meth eps P S Vh ns Hw b) (dform_zero_iff tw meth eps P S Vh ns Hw b)). Qed.
 
-Theorem pseudo_positive (tw : Z -> F) meth (P : nat) (S : list F) (Vh : list (list F)) (ns : nat) (b : Z) (I : nat) :
-  (meth = MEv -> forall I, (ns <= I)%nat -> (I < P)%nat -> pos (nthF S I)) ->
+Theorem pseudo_positive (tw : Z -> F) meth eps (P : nat) (S : list F) (Vh : list (list F)) (ns : nat) (b : Z) (I : nat) :
+  (meth = MEv -> pos eps /\ pos (nthF S 0) /\ forall I, (ns <= I)%nat -> (I < P)%nat -> nonneg (nthF S I)) ->
   (ns <= I)%nat -> (I < P)%nat -> dftN tw P (rsv Vh I) b <> 0 ->
-  pos (dform meth tw P S Vh ns b) /\ pos (1 / dform meth tw P S Vh ns b).
-Proof. exact (fun Hw => pseudo_value_pos tw meth P S Vh ns Hw b I). Qed.
+  pos (dform meth eps tw P S Vh ns b) /\ pos (1 / dform meth eps tw P S Vh ns b).
+Proof. exact (fun Hw => pseudo_value_pos tw meth eps P S Vh ns Hw b I). Qed.
 
 Theorem music_at_least_1_over_P (tw : Z -> F) (NFFT : nat) (T : Twiddle NFFT tw) (Hpos : (0 < NFFT)%nat)
-        FB rows P S Vh ns (b : Z) :
-  svd_spec FB rows P S Vh -> (ns <= P)%nat -> le (dform MMusic tw P S Vh ns b) (ofnat P).
-Proof. exact (music_den_le_P_thm tw NFFT Hpos FB rows P S Vh ns b). Qed.
+        FB rows P S Vh ns eps (b : Z) :
+  svd_spec FB rows P S Vh -> (ns <= P)%nat -> le (dform MMusic eps tw P S Vh ns b) (ofnat P).
+Proof. exact (music_den_le_P_thm tw NFFT Hpos FB rows P S Vh ns eps b). Qed.
 
 Theorem signal_space_choice meth nsig (thr : option F) crit amin N P NFFT S ns :
   eigen_nsig meth nsig thr crit amin N P NFFT S = inr ns ->
@@ -160,31 +161,31 @@ Theorem threshold_keeps_noise (S : list F) (t : F) :
 Proof. exact (threshold_keeps_noise_thm S t). Qed.
 
 Theorem music_axis_eigen (tw : Z -> F) (NFFT : nat) (T : Twiddle NFFT tw) (Hpos : (0 < NFFT)%nat)
-        meth nsig thr crit amin (x : list F) (P : nat) (S : list F) (Vh : list (list F)) psd ev :
+        meth eps nsig thr crit amin (x : list F) (P : nat) (S : list F) (Vh : list (list F)) psd ev :
   (forall I, (I < P)%nat -> length (mrow Vh I) = P) ->
-  eigen meth nsig thr crit amin tw NFFT x P S Vh = inr (psd, ev) ->
+  eigen meth eps nsig thr crit amin tw NFFT x P S Vh = inr (psd, ev) ->
   exists ns, eigen_nsig meth nsig thr crit amin (length x) P NFFT S = inr ns /\ ev = S /\ length psd = NFFT /\
-    forall j, (j < NFFT)%nat -> nthF psd j = 1 / dform meth tw P S Vh ns (centerdc_bin NFFT j).
-Proof. exact (fun Hrows => music_axis_eigen_thm tw NFFT Hpos meth nsig thr crit amin x P S Vh Hrows psd ev). Qed.
+    forall j, (j < NFFT)%nat -> nthF psd j = 1 / dform meth eps tw P S Vh ns (centerdc_bin NFFT j).
+Proof. exact (fun Hrows => music_axis_eigen_thm tw NFFT Hpos meth eps nsig thr crit amin x P S Vh Hrows psd ev). Qed.
 
 Theorem music_axis_complex (tw : Z -> F) (NFFT : nat) (T : Twiddle NFFT tw) (Hpos : (0 < NFFT)%nat)
-        meth nsig thr crit amin (x : list F) (P : nat) (S : list F) (Vh : list (list F)) scale psd ev :
+        meth eps nsig thr crit amin (x : list F) (P : nat) (S : list F) (Vh : list (list F)) scale psd ev :
   (forall I, (I < P)%nat -> length (mrow Vh I) = P) ->
-  pclass meth false scale nsig thr crit amin tw NFFT x P S Vh = inr (psd, ev) ->
+  pclass meth eps false scale nsig thr crit amin tw NFFT x P S Vh = inr (psd, ev) ->
   exists ns, eigen_nsig meth nsig thr crit amin (length x) P NFFT S = inr ns /\ ev = S /\ length psd = NFFT /\
-    forall j, (j < NFFT)%nat -> nthF psd j = scaled scale (1 / dform meth tw P S Vh ns (Z.of_nat j)).
-Proof. exact (fun Hrows => music_axis_complex_thm tw NFFT Hpos meth nsig thr crit amin x P S Vh Hrows scale psd ev). Qed.
+    forall j, (j < NFFT)%nat -> nthF psd j = scaled scale (1 / dform meth eps tw P S Vh ns (Z.of_nat j)).
+Proof. exact (fun Hrows => music_axis_complex_thm tw NFFT Hpos meth eps nsig thr crit amin x P S Vh Hrows scale psd ev). Qed.
 
 Theorem music_axis_real (tw : Z -> F) (NFFT : nat) (T : Twiddle NFFT tw) (Hpos : (0 < NFFT)%nat)
-        meth nsig thr crit amin (x : list F) (P : nat) (S : list F) (Vh : list (list F)) scale psd ev :
+        meth eps nsig thr crit amin (x : list F) (P : nat) (S : list F) (Vh : list (list F)) scale psd ev :
   (forall I, (I < P)%nat -> length (mrow Vh I) = P) ->
-  pclass meth true scale nsig thr crit amin tw NFFT x P S Vh = inr (psd, ev) ->
+  pclass meth eps true scale nsig thr crit amin tw NFFT x P S Vh = inr (psd, ev) ->
   exists ns, eigen_nsig meth nsig thr crit amin (length x) P NFFT S = inr ns /\ ev = S /\ length psd = (NFFT / 2 + 1)%nat /\
     forall j, (j <= NFFT / 2)%nat ->
-      nthF psd j = scaled scale (1 / dform meth tw P S Vh ns (- Z.of_nat j)%Z * two)
+      nthF psd j = scaled scale (1 / dform meth eps tw P S Vh ns (- Z.of_nat j)%Z * two)
       /\ ((forall I m, conj (mat Vh I m) = mat Vh I m) ->
-          nthF psd j = scaled scale (1 / dform meth tw P S Vh ns (Z.of_nat j) * two)).
-Proof. exact (fun Hrows => music_axis_real_thm tw NFFT Hpos meth nsig thr crit amin x P S Vh Hrows scale psd ev). Qed.
+          nthF psd j = scaled scale (1 / dform meth eps tw P S Vh ns (Z.of_nat j) * two)).
+Proof. exact (fun Hrows => music_axis_real_thm tw NFFT Hpos meth eps nsig thr crit amin x P S Vh Hrows scale psd ev). Qed.
 End C17.
 
 (* ---------------- non-vacuity on concrete Gaussian-rational inputs ---------------- *)
@@ -204,6 +205,7 @@ Proof. vm_compute. reflexivity. Qed.
    FB^H FB = [[8,8],[8,8]], S = (4, 0), v_0 = ((1+i)/2, (1+i)/2), v_1 = ((1+i)/2, -(1+i)/2); Vh holds their conjugates *)
 Definition ex_x : list QcC := [cz (1,0) (1,0); cz (1,0) (1,0); cz (1,0) (1,0); cz (1,0) (1,0)].
 Definition ex_S : list QcC := [cz (4,0) (0,0); cz (0,0) (0,0)].
+Definition ex_eps : QcC := cz (1,-52) (0,0).     (* numpy.finfo(float).eps = 2^-52 *)
 Definition ex_Vh : list (list QcC) := [[cz (1,-1) (-1,-1); cz (1,-1) (-1,-1)]; [cz (1,-1) (-1,-1); cz (-1,-1) (1,-1)]].
 Ltac qcc_eq := apply qcc_eq_canon; vm_compute; reflexivity.
 (* [qcc_ord] is opaque: non-negativity of a concrete value is shown by exhibiting it as a squared modulus *)
@@ -222,18 +224,18 @@ Proof.
 Qed.
 (* MUSIC on it (NSIG = 1, NFFT = 4): the model returns S and the denominator of the centred entry 2 (bin 0) is exactly 0 *)
 Example eigen_resolves_example :
-  exists psd, @eigen _ qcc_ops MMusic (Some (NInt 1)) None CAic 0 tw4 4 ex_x 2 ex_S ex_Vh = inr (psd, ex_S)
-    /\ @dform _ qcc_ops MMusic tw4 2 ex_S ex_Vh 1 (@centerdc_bin 4 2) = @zero _ qcc_ops
-    /\ @dform _ qcc_ops MMusic tw4 2 ex_S ex_Vh 1 (@centerdc_bin 4 3) = cz (1,0) (0,0).
+  exists psd, @eigen _ qcc_ops MMusic ex_eps (Some (NInt 1)) None CAic 0 tw4 4 ex_x 2 ex_S ex_Vh = inr (psd, ex_S)
+    /\ @dform _ qcc_ops MMusic ex_eps tw4 2 ex_S ex_Vh 1 (@centerdc_bin 4 2) = @zero _ qcc_ops
+    /\ @dform _ qcc_ops MMusic ex_eps tw4 2 ex_S ex_Vh 1 (@centerdc_bin 4 3) = cz (1,0) (0,0).
 Proof. eexists. split; [vm_compute; reflexivity|]. split; qcc_eq. Qed.
 (* the hypotheses of [eigen_resolves] are jointly satisfiable: the abstract theorem applied to this input *)
 Example eigen_resolves_applies psd ev :
-  @eigen _ qcc_ops MMusic (Some (NInt 1)) None CAic 0 tw4 4 ex_x 2 ex_S ex_Vh = inr (psd, ev) ->
-  @dform _ qcc_ops MMusic tw4 2 ex_S ex_Vh 1 (@centerdc_bin 4 2) = @zero _ qcc_ops.
+  @eigen _ qcc_ops MMusic ex_eps (Some (NInt 1)) None CAic 0 tw4 4 ex_x 2 ex_S ex_Vh = inr (psd, ev) ->
+  @dform _ qcc_ops MMusic ex_eps tw4 2 ex_S ex_Vh 1 (@centerdc_bin 4 2) = @zero _ qcc_ops.
 Proof.
   intros He.
   assert (Hpos : (0 < 4)%nat) by lia.
-  destruct (@eigen_resolves _ qcc_ops qcc_laws qcc_ord tw4 4 tw4_twiddle Hpos MMusic CAic 0%nat ex_x 2%nat 1%nat
+  destruct (@eigen_resolves _ qcc_ops qcc_laws qcc_ord tw4 4 tw4_twiddle Hpos MMusic ex_eps CAic 0%nat ex_x 2%nat 1%nat
               (fun _ => cz (1,0) (1,0)) (fun _ => cz (1,0) (0,0)) (fun _ => 0) ex_S ex_Vh psd ev) as (_ & _ & _ & _ & H).
   - intros n Hn. cbn [length ex_x] in Hn.
     destruct n as [|[|[|[|n]]]]; [qcc_eq|qcc_eq|qcc_eq|qcc_eq|lia].
@@ -245,13 +247,26 @@ Proof.
   - exact He.
   - apply (H 0%nat 2%nat 0 ltac:(lia) ltac:(lia)). reflexivity.
 Qed.
-(* EV on the same input: the noise singular value is exactly 0, the hypothesis "pos S_I" of [pseudo_positive] fails, and the
-   model's pseudo-spectrum (1/(|Z|^2/0), with x/0 = 0 in the totalised field) is 0 at every bin: not positive.
-   The implementation shows the same corner (numpy: |Z|^2/0 = inf or 0/0 = nan): key ev_zero_singular_value of the check *)
-Example ev_zero_singular_value_not_positive :
-  @eigen _ qcc_ops MEv (Some (NInt 1)) None CAic 0 tw4 4 ex_x 2 ex_S ex_Vh
-  = inr ([@zero _ qcc_ops; @zero _ qcc_ops; @zero _ qcc_ops; @zero _ qcc_ops], ex_S).
+(* EV on the same input (D22): the noise singular value is exactly 0; the code floors it at eps*S_0 = 2^-50, so the weight is 2^50 and the
+   pseudo-spectrum is positive at every bin that is not a true bin: centred entries (bins -2,-1,0,1) = 2^-51, 2^-50, 1/0, 2^-50
+   (the entry at the true bin 0 is the reciprocal of an exact 0: "infinite"; it reads 0 in the totalised field) *)
+Example ev_floored_on_zero_singular_value :
+  @eigen _ qcc_ops MEv ex_eps (Some (NInt 1)) None CAic 0 tw4 4 ex_x 2 ex_S ex_Vh
+  = inr ([cz (1,-51) (0,0); cz (1,-50) (0,0); @zero _ qcc_ops; cz (1,-50) (0,0)], ex_S).
 Proof. vm_compute. reflexivity. Qed.
+(* and the abstract theorem applies there: eps > 0, S_0 = 4 > 0, S_1 = 0 >= 0 suffice for positivity at bin 1 *)
+Example ev_floor_positive :
+  @pos _ qcc_ops qcc_ord (@div _ qcc_ops (@one _ qcc_ops) (@dform _ qcc_ops MEv ex_eps tw4 2 ex_S ex_Vh 1 (@centerdc_bin 4 3))).
+Proof.
+  apply (@pseudo_positive _ qcc_ops qcc_laws qcc_ord tw4 MEv ex_eps 2%nat ex_S ex_Vh 1%nat (@centerdc_bin 4 3) 1%nat).
+  - intros _. split; [|split].
+    + split; [qcc_nn (cz (1,-26) (0,0))|intro E; inversion E].
+    + split; [qcc_nn (cz (2,0) (0,0))|intro E; inversion E].
+    + intros I H1 H2. assert (I = 1%nat) by lia. subst I. qcc_nn (cz (0,0) (0,0)).
+  - lia.
+  - lia.
+  - intro E. vm_compute in E. inversion E.
+Qed.
 (* decisions: the three rules and four rejections on concrete arguments *)
 Example decisions_example :
   @eigen_nsig _ qcc_ops MEv (Some (NInt 2)) None COther 7 20 5 16 [] = inr 2%nat
